@@ -24,11 +24,13 @@ Record trig := {
   t_trace_on : bool; t_trace_off : bool;
   t_trace : bool;                  (* TRIGGER_FL_TRACE *)
   t_caller : bool;                 (* TRIGGER_FL_CALLER *)
-  t_loc : option bool              (* TRIGGER_FL_LOC (-L): Some true = lmode IN, Some false = lmode OUT (@hide) *)
+  t_loc : option bool;             (* TRIGGER_FL_LOC (-L): Some true = lmode IN, Some false = lmode OUT (@hide) *)
+  t_finish : bool                  (* TRIGGER_FL_FINISH *)
 }.
 Definition notrig : trig :=
   {| t_filter := None; t_depth := None; t_time := None; t_size := None;
-     t_trace_on := false; t_trace_off := false; t_trace := false; t_caller := false; t_loc := None |}.
+     t_trace_on := false; t_trace_off := false; t_trace := false; t_caller := false; t_loc := None;
+     t_finish := false |}.
 
 Inductive shape := PG | CYG.
 
